@@ -9,6 +9,18 @@ K = 'bounded model checking of the real code with Kani/CBMC (SAT)'
 M = 'bounded symbolic execution of the real MIR with an SMT solver (mirsym + z3)'
 
 CHECKS = {
+    'C07': dict(engine='M', cat='model_checking',
+                text='bounded symbolic execution of the real log writer and reader over an in-memory file model: histories of up to 2 (thorough 3) '
+                     'recorded steps with symbolic 64-bit hashes, a SYMBOLIC number of surviving bytes (every crash point of every write), '
+                     'reload, append, reload; the solver decides on every path that the load succeeds and yields exactly the intact records',
+                note='trusted: byte-list model of File/BufReader/OpenOptions (a crash leaves a byte prefix), std models; traces with a failing obligation are replayed on real files',
+                tech=M + '; crash point and hashes symbolic', ref='DESIGN.md section 4, C07'),
+    'C08': dict(engine='M+K', cat='model_checking',
+                text='bounded symbolic execution of the real log code: records written under one manifest and loaded under an independently '
+                     'chosen second manifest (symbolic producer assignment of 3 files over 2 steps, reversed numbering, symbolic hashes) against '
+                     'the attribution rule of the property; concrete width families at the field-width boundaries; Kani on the integer codecs',
+                note='trusted: byte-list file model, std models, Kani/CBMC; known finding: 16-bit dependency count (known_findings.txt)',
+                tech=M + '; ' + K, ref='DESIGN.md section 4, C08'),
     'C12': dict(engine='M+K', cat='other',
                 text='bounded symbolic execution of the real loader, error formatter, target canonicalisation and depfile reader on '
                      'symbolic bytes/offsets (z3 decides every branch and every bounds/unchecked-access/overflow/panic obligation), plus '
